@@ -14,7 +14,7 @@ Lemma default_schedulers_ok : default_schedulers =
   ["balance-region"; "balance-leader"; "hot-region"].
 Proof. reflexivity. Qed.
 
-(* trace-region-flow=false => flow-round-by-digit=127, then the flag is cleared (model: normalise) *)
+(* the deprecated trace-region-flow flag is cleared on reload (model: reload_conf = normalise) *)
 Lemma skel_PDServer_MigrateDeprecatedFlags_ok : skel_PDServer_MigrateDeprecatedFlags =
   [IfE "!c.TraceRegionFlow" [Assign "c.FlowRoundByDigit" "= math.MaxInt8"] []; Assign "c.TraceRegionFlow" "= false"].
 Proof. reflexivity. Qed.
@@ -29,9 +29,9 @@ Lemma skel_SetScheduleConfig_ok : skel_SetScheduleConfig =
   [Call "Validate"; IfE "err != nil" [Ret] []; Call "Deprecated"; IfE "err != nil" [Ret] []; Call "GetScheduleConfig"; Assign "cfg.SchedulersPayload" "= nil"; Call "SetScheduleConfig"; Call "Persist"; IfE "err != nil" [Call "SetScheduleConfig"; Ret] []; Ret].
 Proof. reflexivity. Qed.
 
-(* validate; Initialize when placement rules are switched on; CheckInDefaultRule when count/labels change; rule.Count / rule.LocationLabels assigned on the object GetRule returned; SetRule; swap; persist; on failure restore the config and only rule.Count (model: repl_init / repl_check / repl_commit) *)
+(* validate; Initialize when placement rules are switched on; CheckInDefaultRule when count/labels change; a COPY of the rule GetRule returned gets the new count / labels (ruleCopy); SetRule; swap; persist; on failure restore the config and count AND labels of the rule through a second SetRule (model: repl_init / repl_check / repl_commit) *)
 Lemma skel_SetReplicationConfig_ok : skel_SetReplicationConfig =
-  [Call "Validate"; IfE "err != nil" [Ret] []; Call "GetReplicationConfig"; IfE "cfg.EnablePlacementRules != old.EnablePlacementRules" [IfE "raftCluster == nil" [Ret] []; IfE "cfg.EnablePlacementRules" [Call "Initialize"; IfE "err != nil" [Ret] []] [ForE [IfE "!s.IsTombstone() && core.IsTiFlashStore(s.GetMeta())" [Ret] []]]] []; IfE "cfg.EnablePlacementRules" [Call "GetRule"; DeferE [IfE "!(defaultRule != nil && len(defaultRule.StartKey) == 0 && len(defaultRule.EndKey) == 0)" [Ret] []; Assign "rule" "= defaultRule"; IfE "!(rule.Count == int(old.MaxReplicas) && reflect.DeepEqual(rule.LocationLabels, []string(old.LocationLabels)))" [Ret] []; Ret]; IfE "!(cfg.MaxReplicas == old.MaxReplicas && reflect.DeepEqual(cfg.LocationLabels, old.LocationLabels))" [Call "CheckInDefaultRule"; IfE "err != nil" [Ret] []; Assign "rule" "= defaultRule"] []] []; IfE "rule != nil" [Assign "rule.Count" "= int(cfg.MaxReplicas)"; Assign "rule.LocationLabels" "= cfg.LocationLabels"; Call "SetRule"; IfE "err != nil" [Ret] []] []; Call "SetReplicationConfig"; Call "Persist"; IfE "err != nil" [Call "SetReplicationConfig"; IfE "rule != nil" [Assign "rule.Count" "= int(old.MaxReplicas)"; Call "SetRule"] []; Ret] []; Ret].
+  [Call "Validate"; IfE "err != nil" [Ret] []; Call "GetReplicationConfig"; IfE "cfg.EnablePlacementRules != old.EnablePlacementRules" [IfE "raftCluster == nil" [Ret] []; IfE "cfg.EnablePlacementRules" [Call "Initialize"; IfE "err != nil" [Ret] []] [ForE [IfE "!s.IsTombstone() && core.IsTiFlashStore(s.GetMeta())" [Ret] []]]] []; IfE "cfg.EnablePlacementRules" [Call "GetRule"; DeferE [IfE "!(defaultRule != nil && len(defaultRule.StartKey) == 0 && len(defaultRule.EndKey) == 0)" [Ret] []; Assign "rule" "= defaultRule"; IfE "!(rule.Count == int(old.MaxReplicas) && reflect.DeepEqual(rule.LocationLabels, []string(old.LocationLabels)))" [Ret] []; Ret]; IfE "!(cfg.MaxReplicas == old.MaxReplicas && reflect.DeepEqual(cfg.LocationLabels, old.LocationLabels))" [Call "CheckInDefaultRule"; IfE "err != nil" [Ret] []; Assign "rule" "= defaultRule"] []] []; IfE "rule != nil" [Assign "rule" "= &ruleCopy"; Assign "rule.Count" "= int(cfg.MaxReplicas)"; Assign "rule.LocationLabels" "= cfg.LocationLabels"; Call "SetRule"; IfE "err != nil" [Ret] []] []; Call "SetReplicationConfig"; Call "Persist"; IfE "err != nil" [Call "SetReplicationConfig"; IfE "rule != nil" [Assign "rule.Count" "= int(old.MaxReplicas)"; Assign "rule.LocationLabels" "= old.LocationLabels"; Call "SetRule"] []; Ret] []; Ret].
 Proof. reflexivity. Qed.
 
 (* dashboard address: keyword or (prefixed) member URL, then Validate, swap, persist, restore *)
@@ -39,14 +39,14 @@ Lemma skel_SetPDServerConfig_ok : skel_SetPDServerConfig =
   [SwitchE [[]; []; [IfE "!strings.HasPrefix(cfg.DashboardAddress, ""http"")" [Assign "cfg.DashboardAddress" "= fmt.Sprintf(""%s://%s"", s.GetClientScheme(), cfg.DashboardAddress)"] []; Call "IsClientURL"; IfE "!cluster.IsClientURL(cfg.DashboardAddress, s.client)" [Ret] []]]; Call "Validate"; IfE "err != nil" [Ret] []; Call "GetPDServerConfig"; Call "SetPDServerConfig"; Call "Persist"; IfE "err != nil" [Call "SetPDServerConfig"; Ret] []; Ret].
 Proof. reflexivity. Qed.
 
-(* the roll-back of SetLabelProperty is DeleteLabelProperty (the inverse operation), not the old map *)
+(* old map remembered; the roll-back is SetLabelPropertyConfig(old) (model: swap_persist) *)
 Lemma skel_SetLabelProperty_ok : skel_SetLabelProperty =
-  [Call "SetLabelProperty"; Call "Persist"; IfE "err != nil" [Call "DeleteLabelProperty"; Call "GetLabelPropertyConfig"; Ret] []; Call "GetLabelPropertyConfig"; Ret].
+  [Call "GetLabelPropertyConfig"; Call "SetLabelProperty"; Call "Persist"; IfE "err != nil" [Call "SetLabelPropertyConfig"; Call "GetLabelPropertyConfig"; Ret] []; Call "GetLabelPropertyConfig"; Ret].
 Proof. reflexivity. Qed.
 
-(* the roll-back of DeleteLabelProperty is SetLabelProperty *)
+(* old map remembered; the roll-back is SetLabelPropertyConfig(old) *)
 Lemma skel_DeleteLabelProperty_ok : skel_DeleteLabelProperty =
-  [Call "DeleteLabelProperty"; Call "Persist"; IfE "err != nil" [Call "SetLabelProperty"; Call "GetLabelPropertyConfig"; Ret] []; Call "GetLabelPropertyConfig"; Ret].
+  [Call "GetLabelPropertyConfig"; Call "DeleteLabelProperty"; Call "Persist"; IfE "err != nil" [Call "SetLabelPropertyConfig"; Call "GetLabelPropertyConfig"; Ret] []; Call "GetLabelPropertyConfig"; Ret].
 Proof. reflexivity. Qed.
 
 (* parse, swap, persist, restore *)
@@ -89,12 +89,12 @@ Lemma guards_opt_DeleteLabelProperty_ok : guards_opt_DeleteLabelProperty =
   [("l.Key == labelKey && l.Value == labelValue", "continue"); ("len(cfg[typ]) == 0", "...")].
 Proof. reflexivity. Qed.
 
-(* GetRule returns the rule object of the rule config itself, no Clone (reference semantics of srule) *)
+(* GetRule returns the rule object of the rule config itself, no Clone: callers must copy before editing *)
 Lemma skel_rm_GetRule_ok : skel_rm_GetRule =
   [RLock "m"; DeferRUnlock "m"; Call "getRule"; Ret].
 Proof. reflexivity. Qed.
 
-(* trim() before savePatch: a rule equal to the existing one (here: the same object) is dropped from the patch, nothing is saved *)
+(* trim() before savePatch: a rule equal to the existing one is dropped from the patch; a changed one is saved, then committed *)
 Lemma skel_rm_tryCommitPatch_ok : skel_rm_tryCommitPatch =
   [IfE "err != nil" [Ret] []; Call "trim"; Call "savePatch"; IfE "err != nil" [Ret] []; Call "commit"; Ret].
 Proof. reflexivity. Qed.
